@@ -46,7 +46,11 @@ W = [
     sub={"carried": [1], "scan": []}, out_count=1), "known", None),
  ("v17.Loop", call("spox.opset.ai.onnx.v17", "Loop", [None, T(1, [None, "K"])], [0, None, [1]],
     sub={"carried": ["same"], "scan": []}, out_count=1), "known", None),
- ("v17.Compress", call("spox.opset.ai.onnx.v17", "Compress", [None, T(9, ["K"])], [0, 1]), "fixed: 0124c20",
+ ("v17.Scan", call("spox.opset.ai.onnx.v17", "Scan", [T(6, []), None, T(6, [3, 2])], [[0, 1, 2]], {"num_scan_inputs": 2},
+    sub={"n_state": 1, "scan_outs": [0]}, out_count=2), "known", None),
+ ("v17.SequenceMap", call("spox.opset.ai.onnx.v17", "SequenceMap", [{"seq": T(1, [2, 4])}, None], [0, [1]],
+    sub={"outs": [0]}, out_count=1), "known", None),
+ ("v17.Compress", call("spox.opset.ai.onnx.v17", "Compress", [None, T(9, ["K"])], [0, 1]), "fixed: b88bbb9",
   "untyped-input-raises:Compress:TypeError"),
 ]
 ops = {o.key: o for o in L.load_vocabulary()}
@@ -57,7 +61,7 @@ for op_key, c, status, forced_key in W:
         assert k is not None, (op_key, c)
     else:
         k = forced_key
-        what = "fixed: property=C05 0124c20 Compress with an input of unknown type raised TypeError (unwrap_tensor on an untyped Var) instead of returning an untyped output"
+        what = "fixed: property=C05 b88bbb9 Compress with an input of unknown type raised TypeError (unwrap_tensor on an untyped Var) instead of returning an untyped output"
     slug = k.replace(":", "-").replace("/", "-")
     rp = f"findings/C05-{slug}.json"
     doc = {"property": "C05", "kind": "input", "seed": 0, "key": k, "what": what,
